@@ -19,6 +19,9 @@ pub const REQUIRED: &[&str] = &[
     "MultiFittedLogisticRegression",
     "FtrlParams",
     "Ftrl",
+    "variance_is_ok",
+    "variance_err_ill_conditioned",
+    "variance_err_not_enough_samples",
 ];
 
 pub fn check(c: &Case, obs: &mut Obs) {
@@ -70,6 +73,44 @@ macro_rules! adapters {
             }
             fn y1(c: &Case) -> Array1<F> {
                 Array1::from(targets::<F>(c, 0))
+            }
+
+            /// Training rows of the elastic-net adapters. Besides the raw matrix: an exactly duplicated column or an all-zero
+            /// column (X^T X exactly singular: with more rows than columns the variance estimate is `Err(IllConditioned)`),
+            /// or no more rows than columns (`Err(NotEnoughSamples)`).
+            fn enet_design(c: &Case, k: &mut Knobs, obs: &mut Obs) -> Vec<Vec<f64>> {
+                let p = ncols(c);
+                let mut x: Vec<Vec<f64>> = c.x.clone();
+                match k.pick(6) {
+                    4 => {
+                        obs.class("design_duplicated_column");
+                        for r in x.iter_mut() {
+                            let v = r.first().copied().unwrap_or(0.0);
+                            if p >= 2 {
+                                if let Some(last) = r.last_mut() {
+                                    *last = v;
+                                }
+                            } else {
+                                r.push(v);
+                            }
+                        }
+                    }
+                    5 => {
+                        obs.class("design_zero_column");
+                        let j = k.pick(p.max(1));
+                        for r in x.iter_mut() {
+                            if let Some(v) = r.get_mut(j) {
+                                *v = 0.0;
+                            }
+                        }
+                    }
+                    3 => {
+                        obs.class("design_few_rows");
+                        x.truncate(p.min(c.x.len()));
+                    }
+                    _ => {}
+                }
+                x
             }
 
             fn ols(c: &Case, obs: &mut Obs, k: &mut Knobs) {
@@ -220,9 +261,9 @@ macro_rules! adapters {
                     Ok(v) => v,
                     Err(_) => return obs.skip("params_invalid"),
                 };
-                // sometimes no more rows than features: the variance estimate is then an error value inside the model
-                let rows = if k.rare() { ncols(c).min(c.x.len()) } else { c.x.len() };
-                let ds = Dataset::new(mat::<F>(&c.x[..rows]), y1(c).slice(ndarray::s![..rows]).to_owned());
+                let design = enet_design(c, k, obs);
+                let rows = design.len();
+                let ds = Dataset::new(mat::<F>(&design), y1(c).slice(ndarray::s![..rows]).to_owned());
                 obs.class(P);
                 let want_fit = fit_outcome(|| valid.fit(&ds));
                 for (fmt, back) in roundtrip(obs, P, &valid, STABLE) {
@@ -248,6 +289,10 @@ macro_rules! adapters {
                 let want_z = observe(|| zs(&model));
                 obs.class_if(matches!(want_z, Ok(Err(_))), "variance_is_error");
                 obs.class_if(matches!(want_z, Ok(Ok(_))), "variance_is_ok");
+                if let Ok(Err(e)) = &want_z {
+                    obs.class_if(*e == linfa_elasticnet::ElasticNetError::IllConditioned.to_string(), "variance_err_ill_conditioned");
+                    obs.class_if(*e == linfa_elasticnet::ElasticNetError::NotEnoughSamples.to_string(), "variance_err_not_enough_samples");
+                }
                 let want_c = observe(|| cf(&model));
                 for (fmt, back) in roundtrip(obs, T, &model, STABLE) {
                     must(obs, T, fmt, "hyperplane", same_arr(model.hyperplane(), back.hyperplane()));
@@ -283,9 +328,10 @@ macro_rules! adapters {
                     Err(_) => return obs.skip("params_invalid"),
                 };
                 let tasks = 1 + k.pick(3);
-                let n = if k.rare() { ncols(c).min(c.x.len()) } else { c.x.len() };
+                let design = enet_design(c, k, obs);
+                let n = design.len();
                 let y = Array2::from_shape_fn((n, tasks), |(i, t)| targets::<F>(c, t).get(i).copied().unwrap_or(F::of(0.0)));
-                let ds = Dataset::new(mat::<F>(&c.x[..n]), y);
+                let ds = Dataset::new(mat::<F>(&design), y);
                 obs.class(P);
                 let want_fit = fit_outcome(|| valid.fit(&ds));
                 for (fmt, back) in roundtrip(obs, P, &valid, STABLE) {
@@ -304,12 +350,18 @@ macro_rules! adapters {
                 obs.class(T);
                 obs.nontrivial();
                 let zs = |m: &MultiTaskElasticNet<F>| m.z_score().map_err(|e| e.to_string());
+                let cf = |m: &MultiTaskElasticNet<F>| m.confidence_95th().map_err(|e| e.to_string());
                 let q = queries(c);
                 let want = observe(|| model.predict(&q));
                 // (MultiTaskElasticNet::z_score panics unless tasks == features: broadcast of the variance vector; not C19's subject)
                 let want_z = observe(|| zs(&model));
+                let want_c = observe(|| cf(&model));
                 obs.class_if(matches!(want_z, Ok(Err(_))), "variance_is_error");
                 obs.class_if(matches!(want_z, Ok(Ok(_))), "variance_is_ok");
+                if let Ok(Err(e)) = &want_z {
+                    obs.class_if(*e == linfa_elasticnet::ElasticNetError::IllConditioned.to_string(), "variance_err_ill_conditioned");
+                    obs.class_if(*e == linfa_elasticnet::ElasticNetError::NotEnoughSamples.to_string(), "variance_err_not_enough_samples");
+                }
                 for (fmt, back) in roundtrip(obs, T, &model, STABLE) {
                     must(obs, T, fmt, "hyperplane", same_arr(model.hyperplane(), back.hyperplane()));
                     must(obs, T, fmt, "intercept", same_arr(model.intercept(), back.intercept()));
@@ -317,6 +369,11 @@ macro_rules! adapters {
                     must(obs, T, fmt, "duality_gap", same(model.duality_gap(), back.duality_gap()));
                     same_behaviour(obs, T, fmt, "z_score", &want_z, || zs(&back), |a, b| match (a, b) {
                         (Ok(a), Ok(b)) => same_arr(a, b),
+                        (Err(a), Err(b)) => a == b,
+                        _ => false,
+                    });
+                    same_behaviour(obs, T, fmt, "confidence_95th", &want_c, || cf(&back), |a, b| match (a, b) {
+                        (Ok(a), Ok(b)) => a.shape() == b.shape() && a.iter().zip(b.iter()).all(|(x, y)| same(x.0, y.0) && same(x.1, y.1)),
                         (Err(a), Err(b)) => a == b,
                         _ => false,
                     });
